@@ -1,6 +1,8 @@
 import TucanModel.Codec
 import TucanModel.Canon
 import TucanModel.Serialize
+import TucanModel.Parser
+import TucanModel.Molfile
 /-!
 # Operations of the line protocol
 
@@ -66,6 +68,54 @@ def runOp : P String := do
     let shuffles ← many k natList
     match permuteMolecule g shuffles with
     | .ok r => pure (showGraph r)
+    | .error e => pure (showErr e)
+  | "PARSE" =>
+    let t ← str
+    match graphFromTucan t with
+    | .ok g => pure (showGraph g)
+    | .error e => pure (showErr e)
+  | "LEX" =>
+    let t ← str
+    match lex t with
+    | some ts => pure (showStrList (ts.map Tok.text))
+    | none => pure (showErr .tucanParser)
+  | "V3000" =>
+    let ls ← strList
+    match graphAttributesV3000 ls with
+    | .ok (a, b) => pure (fields [showAtomDict a, showBondDict b])
+    | .error e => pure (showErr e)
+  | "V2000" =>
+    let ls ← strList
+    match graphAttributesV2000 ls with
+    | .ok (a, b) => pure (fields [showAtomDict a, showBondDict b])
+    | .error e => pure (showErr e)
+  | "MOLTEXT" =>
+    let t ← str
+    match graphFromMolfileText t with
+    | .ok g => pure (showGraph g)
+    | .error e => pure (showErr e)
+  | "SPLICE" =>
+    let ls ← strList
+    match concatLinesWithDash ls with
+    | .ok r => pure (showStrList r)
+    | .error e => pure (showErr e)
+  | "TOKENIZE" =>
+    let ls ← strList
+    match tokenizeLines ls with
+    | .ok r => pure ("[" ++ ",".intercalate (r.map showStrList) ++ "]")
+    | .error e => pure (showErr e)
+  | "WRAP" =>
+    let l ← str
+    pure (showStrList (addV30Line l))
+  | "WRITE" =>
+    let g ← graph
+    match graphToMolfileLines g "<HEADER>".toList with
+    | .ok r => pure (showStrList r)
+    | .error e => pure (showErr e)
+  | "ATTRLINE" =>
+    let l ← str; let atoms ← atomDict
+    match parseAtomValueAssignments l atoms with
+    | .ok r => pure ("[" ++ ",".intercalate (r.map fun (a, b) => s!"{a}:{b}") ++ "]")
     | .error e => pure (showErr e)
   | "COPY" =>
     let g ← graph
